@@ -346,6 +346,16 @@ func (e *Exec) reflectCall(st *State, fr *Frame, callee *ssa.Function, name stri
 	for _, a := range args {
 		as = append(as, a.L...)
 	}
+	if name == "(reflect.Value).Slice" && len(args) == 3 {
+		// library precondition: v.Slice(i, j) needs 0 <= i <= j <= v.Len() (cap for slices). A negative lower
+		// bound is a value-dependent failure of the caller's input; an upper bound beyond the length or bounds
+		// out of order are the caller's bookkeeping and are obligations.
+		i, j := args[1].One(), args[2].One()
+		ln := UF(sanitize("(reflect.Value).Len")+"_00", SBV(64), args[0].L...)
+		site := shortName(fr.fn)
+		e.Assert(site+"/lib-pre:reflect.Value.Slice[upper]", "safe", fr.fn.String(), st, BVCmp("bvsle", j, ln), "v.Slice(i, j): j <= v.Len()")
+		e.Assert(site+"/lib-pre:reflect.Value.Slice[order]", "safe", fr.fn.String(), st, BVCmp("bvsle", i, j), "v.Slice(i, j): i <= j")
+	}
 	if fr.mode == "nopanic" {
 		e.Note("assumed: %s does not panic at its call in %s", name, fnName(fr.fn))
 	} else if fr.mode == "panics" {
